@@ -319,6 +319,46 @@ def check(run):
                 run.instance("R9", g_.where, f"Extrusion.{name} := `{txt_[:80]}` - not in a recognised form, NOT decided", True, nontrivial=False)
                 run.assume(f"Extrusion.{name}: the analytic formula is not in a recognised form")
 
+    # ------------------------------------------------------------------ R10 placements are proper rotations
+    run.rule("R10", "creation.py: a placement matrix written out by hand (np.diag / np.array literal inside a function that returns or applies a transform) has no "
+                    "entry that can be negative on its diagonal - `np.sign(x)`, a negative constant - unless paired: a single sign flip is a mirror image, the shape "
+                    "comes out inside-out / upside-down for exactly the inputs that take that branch")
+    n10 = 0
+    for f_ in ix.all_functions:
+        if f_.module.name != "trimesh.creation" or f_.parent is not None:
+            continue
+        src_ = ast.unparse(f_.node)
+        if "np.diag(" not in src_ and "numpy.diag(" not in src_:
+            continue
+        for c_ in ast.walk(f_.node):
+            if not (isinstance(c_, ast.Call) and ast.unparse(c_.func) in ("np.diag", "numpy.diag") and len(c_.args) == 1 and isinstance(c_.args[0], (ast.List, ast.Tuple))
+                    and len(c_.args[0].elts) in (3, 4)):
+                continue
+            n10 += 1
+            ent = c_.args[0].elts[:3]
+            flips = []
+            unknown = False
+            for x_ in ent:
+                t_ = ast.unparse(x_)
+                if isinstance(x_, ast.Constant) and isinstance(x_.value, (int, float)):
+                    if x_.value < 0:
+                        flips.append(t_)
+                elif isinstance(x_, ast.UnaryOp) and isinstance(x_.op, ast.USub) and isinstance(x_.operand, ast.Constant):
+                    flips.append(t_)
+                elif "sign(" in t_ or "copysign(" in t_:
+                    flips.append(t_)
+                else:
+                    unknown = True
+            where_ = f"{f_.module.rel}:{c_.lineno} {f_.qualname}"
+            if len(flips) % 2 == 1 and not unknown:
+                run.instance("R10", where_, f"`{ast.unparse(c_)[:70]}`: entries that can be negative: {flips}", False)
+                run.violation("R10", where_, f"`{ast.unparse(c_)[:80]}` is used as a placement: its determinant is negative whenever `{flips[0]}` is, i.e. a mirror image instead "
+                                             f"of a rotation (the primitive is built upside-down / its faces wound inwards for those inputs)",
+                              key=key_of("C15-R10", f_.qualname, "mirror"))
+            else:
+                run.instance("R10", where_, f"`{ast.unparse(c_)[:70]}`: sign flips {flips}{' (other entries not constant)' if unknown else ''}", True, nontrivial=not unknown)
+    run.instance("R10", "trimesh/creation.py", f"hand-written diagonal placements examined: {n10}", True, nontrivial=False)
+
     return {
         "explanation": "Per primitive class: the defaults table, the constructor's forwarding dict and the parameters read by _create_mesh "
         "(effect analysis through PrimitiveAttributes.__getattr__ into the shared DataStore) must coincide; lazy getters use the "
